@@ -2255,6 +2255,9 @@ fn eval_in_unary_greater_or_equal(left: &Value, right: &Value) -> Value {
 
 /// Evaluates function definition with positional parameters.
 fn eval_function_positional(scope: &Scope, arguments: &[Value], parameters: &[(Name, FeelType)], body: &FunctionBody, result_type: FeelType) -> Value {
+  if arguments.len() > parameters.len() {
+    return value_null!("invalid number of arguments");
+  }
   let mut ctx = FeelContext::default();
   for (i, (parameter_name, parameter_type)) in parameters.iter().enumerate() {
     if let Some(argument) = arguments.get(i) {
@@ -2270,6 +2273,9 @@ fn eval_function_positional(scope: &Scope, arguments: &[Value], parameters: &[(N
 fn eval_function_named(scope: &Scope, arguments: &Value, parameters: &[(Name, FeelType)], body: &FunctionBody, result_type: FeelType) -> Value {
   let mut ctx = FeelContext::default();
   if let Value::NamedParameters(map) = arguments {
+    if map.keys().any(|name| !parameters.iter().any(|(parameter_name, _)| parameter_name == name)) {
+      return value_null!("invalid name of an argument");
+    }
     for (parameter_name, parameter_type) in parameters {
       if let Some((argument, _)) = map.get(parameter_name) {
         ctx.set_entry(parameter_name, parameter_type.coerced(argument))
